@@ -27,6 +27,27 @@ def neutral(name):
 PURE_ACCESSORS = {"is_update", "is_zero", "is_op", "item_size"}
 
 
+_PURE = {}
+
+
+def _is_pure(facts, spath):
+    """A crate function that calls nothing and writes through no pointer (a constructor, an accessor):
+    calling it is not an effect."""
+    key = (id(facts), spath)
+    if key not in _PURE:
+        c = facts.by_spath.get(spath, [])
+        ok = len(c) == 1 and not c[0].is_closure
+        if ok:
+            b = c[0]
+            ok = not any(True for _ in b.calls())
+            for bi in b.live_blocks() if ok else []:
+                for st in b.blocks[bi]["stmts"]:
+                    if st["k"] == "assign" and "*" in st["pl"]["p"]:
+                        ok = False
+        _PURE[key] = ok
+    return _PURE[key]
+
+
 def effect_label(fl, body, t):
     """Flavour-neutral label of an effectful call, or None."""
     c = body.callee_of(t)
@@ -68,7 +89,7 @@ def effect_label(fl, body, t):
                 return "call* " + neutral(sc)
             if "::{closure" in sc:
                 return None
-            if sc.split("::")[-1] in PURE_ACCESSORS:
+            if sc.split("::")[-1] in PURE_ACCESSORS or _is_pure(body.facts, sc):
                 return None
             return "call " + neutral(sc)
     return None
@@ -158,7 +179,7 @@ PAIRS = [
     # (sync spath suffix, async spath suffix) relative to flavour objects; None => same name
     ("cache", "get"), ("cache", "get_mut"), ("cache", "get_ttl"), ("cache", "try_update"), ("cache", "try_insert_in"), ("cache", "try_remove"), ("cache", "wait"),
     ("cache", "clear"), ("cache", "close"), ("cache", "max_cost"), ("cache", "update_max_cost"), ("cache", "len"),
-    ("processor", "handle_item"), ("processor", "handle_insert_event"), ("processor", "handle_clear_event"), ("processor", "handle_cleanup_event"), ("processor", "on_evict"), ("processor", "track_admission"),
+    ("processor", "handle_item"), ("processor", "handle_insert_event"), ("processor", "handle_clear_event"), ("processor", "handle_cleanup_event"), ("processor", "track_admission"),
     ("processor", "prepare_evict"), ("processor", "calculate_internal_cost"), ("processor", "new"),
     ("cleaner", "handle_item"), ("cleaner", "clean"),
     ("policy", "add"), ("policy", "push"), ("policy", "close"), ("policy", "remove"), ("policy", "update"), ("policy", "cost"), ("policy", "clear"), ("policy", "max_cost"), ("policy", "update_max_cost"),
